@@ -235,6 +235,7 @@ def step (s : St) : List String → St × String
         | .ok inv => showInventory inv
         | .error e => showErr e)
   | ["declared"] => (s, showInventory (declared s.scenario))
+  | ["spec"] => (s, showInventory (spec s.scenario))
   -- office-lan node set: `office-build|office-declared <lan> <subnet_base> <ip start> <num_pcs> <include_router -|0|1> <bandwidth|->`
   | "office-build" :: args =>
     match parseOffice args with
